@@ -97,6 +97,9 @@ func (s *simStore) begin(ctx context.Context, method, desc string, stream, write
 			f = nil
 		}
 	}
+	if f != nil && f.Mode == "slowmid" && !stream {
+		f = &FaultSpec{Call: f.Call, Mode: "slow"} // nothing to stream: the call as a whole is slow
+	}
 	if f != nil && f.Mode == "slow" {
 		// a slow (not failing) driver call: it takes J+1 seconds of simulated time before it starts to answer
 		s.mu.Lock()
